@@ -187,7 +187,7 @@ def scope_restore(ctx, cfg, fs):
     allowed = {repr(('entry',)), repr(('narrow', 'range', ('entry',)))}
     for k, v in sorted(finals.items()):
         blocks = sorted({p.blocks[-1] for p in v})
-        ok_site = sorted({[x for x in p.blocks if x in ok_return_blocks(b)][-1] for p in v})
+        ok_site = sorted({([x for x in p.blocks if x in ok_return_blocks(b)] or [p.blocks[-1]])[-1] for p in v})
         ctx.ob('R.scope-restore', 'ParseCommand::eval:adjacent-ok-scope:%s' % k, k in allowed,
                'ParseCommand::eval (adjacent): %d Ok path(s) return with the caller\'s scope = %s; allowed: the scope at entry or the command\'s own `cur..end` narrowing - an adjacency narrowing left in place hides the items to the right of the block from the leftover check' % (len(v), k),
                where=b.where(ok_site[0]), cfg=cfg)
